@@ -15,7 +15,7 @@ pub const RULE: &str = "case = (DNA count matrix of width 1..40 with arbitrary c
 
 pub const REQUIRED: &[&str] = &[
     "type.count", "type.frequency", "type.weight", "type.scoring", "check.involution", "check.definition",
-    "check.commutes", "check.involution_other_base", "class.background_with_null_complementary_pair", "class.position_without_observations", "class.palindromic_with_asymmetric_wildcard", "alphabet.user_defined", "class.nan_frequencies", "check.hand_built_frequency_rows", "check.mirrored_scores", "check.mirrored_score_position", "score_position.no_lookahead_rows", "score_position.too_few_lookahead_rows", "score_position.window_crosses_column", "class.finite_wildcard_column", "class.neg_inf_cells",
+    "check.commutes", "check.involution_other_base", "class.background_with_null_complementary_pair", "class.position_without_observations", "class.palindromic_with_asymmetric_wildcard", "alphabet.user_defined", "class.nan_frequencies", "check.mirrored_scores_with_nan_cells", "check.hand_built_frequency_rows", "check.mirrored_scores", "check.mirrored_score_position", "score_position.no_lookahead_rows", "score_position.too_few_lookahead_rows", "score_position.window_crosses_column", "class.finite_wildcard_column", "class.neg_inf_cells",
     "class.sequence_with_wildcards", "class.width=1", "class.background_with_wildcard_frequency",
 ];
 
@@ -552,6 +552,43 @@ fn run_case(case: u64, rng: &mut Rng, rep: &mut Report) {
                 }
             }
             rep.cover("check.mirrored_score_position");
+        }
+    }
+    if nan_class {
+        let l = rng.range(w, w + 120);
+        let seq = gen_seq(rng, 5, l, SeqKind::Uniform);
+        let rseq = rc_seq(&seq);
+        let mut fwd: StripedSequence<Dna, U32> = stripe_generic(&encoded::<Dna>(&seq));
+        let mut rev: StripedSequence<Dna, U32> = stripe_generic(&encoded::<Dna>(&rseq));
+        fwd.configure(&scoring);
+        rev.configure(&rscoring);
+        let same_kind = |a: f32, b: f32| (a.is_nan() && b.is_nan()) || a == b || close(a, b);
+        match guard(|| {
+            let f = scoring.score(&fwd).unstripe();
+            let r = rscoring.score(&rev).unstripe();
+            let fp: Vec<f32> = (0..=l - w).map(|i| scoring.score_position(&fwd, i)).collect();
+            let rp: Vec<f32> = (0..=l - w).map(|i| rscoring.score_position(&rev, i)).collect();
+            (f, r, fp, rp)
+        }) {
+            Err(p) => {
+                fail(rep, &format!("c10.panic:{}", panic_site(&p)), format!("panic while scoring a matrix with NaN cells: {}", p), J::Null);
+                return;
+            }
+            Ok((f, r, fp, rp)) => {
+                rep.cover("check.mirrored_scores_with_nan_cells");
+                for i in 0..=l - w {
+                    let j = l - w - i;
+                    if !same_kind(f[i], r[j]) || !same_kind(fp[i], rp[j]) || !same_kind(f[i], fp[i]) {
+                        fail(
+                            rep,
+                            "c10.mirror",
+                            format!("matrix with NaN cells (position without observations, no pseudocount): position {} scores {} (score_position {}), position {} of the opposite strand scores {} (score_position {})", i, f[i], fp[i], j, r[j], rp[j]),
+                            J::obj().set("sequence", J::s(fmt_seq_short::<Dna>(&seq))),
+                        );
+                        return;
+                    }
+                }
+            }
         }
     }
     // non-trivial: width >= 2 and non-palindromic
